@@ -25,6 +25,20 @@ class CanonCompare(ast.NodeTransformer):
 
     def __init__(self):
         self.params = [set()]
+        self.np_alias = set()
+
+    def visit_Import(self, node):
+        """alias normal form: whatever numpy is imported as is read as `np`"""
+        for a in node.names:
+            if a.name == "numpy" and a.asname not in (None, "np"):
+                self.np_alias.add(a.asname)
+                a.asname = "np"
+        return node
+
+    def visit_Name(self, node):
+        if node.id in self.np_alias:
+            return ast.copy_location(ast.Name(id="np", ctx=node.ctx), node)
+        return node
 
     def visit_FunctionDef(self, node):
         a = node.args
